@@ -355,4 +355,13 @@ farthest from both (4), then 7, then 1. -/
 example : rearrange (fun a b => ((([0, 10, 1, 7, 4] : List Int).getD a 0) - (([0, 10, 1, 7, 4] : List Int).getD b 0)).natAbs) 5
     = some [0, 1, 4, 3, 2] := by decide
 
+
+/-- **Safe on every length**: `rearrange_sequence` never swaps out of bounds when every key
+exceeds `i32::MIN` (any key computed from a distance other than `−∞`; the distances of real
+colours are non-negative, NaN casts to 0).  The lengths 0, 1, 2 named by the property are
+instances (`rearrange_len0/1/2`). -/
+theorem rearrange_total (key : Nat → Nat → Int) (hk : ∀ a b, i32Min < key a b) (n : Nat) :
+    rearrange key n ≠ none :=
+  Pastel.rearrange_total key hk n
+
 end Pastel.C14
